@@ -270,19 +270,57 @@ int parse_repeat(AsmContext *asm_context)
   uint32_t r;
   int n;
 
+  const bool writes =
+    !(asm_context->pass == 1 && asm_context->pass_1_write_disable == 1);
+
   for (n = 0; n < count - 1; n++)
   {
     for (r = address_start; r < address_end; r++)
     {
       uint8_t data = asm_context->memory_read(r);
-      add_bin8(asm_context, data, 0);
+
+      if (writes && asm_context->read_debug(r) == DL_DATA)
+      {
+        // A copy of data is data: it belongs in the data sections dump.
+        asm_context->memory_write_inc(data, DL_DATA);
+      }
+        else
+      {
+        add_bin8(asm_context, data, 0);
+      }
     }
   }
 
   if (asm_context->list != NULL && asm_context->write_list_file == 1)
   {
-    asm_context->list_output(asm_context, address_end, asm_context->address);
-    fprintf(asm_context->list, "\n");
+    // List every copy on its own, and only its instructions.
+    const uint32_t size = address_end - address_start;
+    uint32_t a = address_end;
+
+    while (a < asm_context->address)
+    {
+      uint32_t copy_end = a + size;
+
+      while (a < copy_end)
+      {
+        const bool is_data = asm_context->read_debug(a) == DL_DATA;
+        uint32_t b = a;
+
+        while (b < copy_end &&
+               (asm_context->read_debug(b) == DL_DATA) == is_data)
+        {
+          b++;
+        }
+
+        if (!is_data)
+        {
+          asm_context->list_output(asm_context, a, b);
+          fprintf(asm_context->list, "\n");
+        }
+
+        a = b;
+      }
+    }
   }
 
   return 0;
